@@ -359,6 +359,18 @@ def _many_reconnects(seed, tape, w, interval, first_conn, eL, t_conn):
                        round(dropped[0], 3)}}
 
 
+def _no_replacement(sim, seed, regime, interval, what):
+    return {"violation": {"key": "C16.no_replacement_after_loss", "clause":
+                          "the Leader replaces a lost / silent connection: a "
+                          "new generation is started",
+                          "detail": "interval %.1f, %s: %s" %
+                          (interval, regime, what)},
+            "nontrivial": True, "digest": sim.hexdigest(), "trace": sim.trace,
+            "stats": {"steps": sim.steps, "sim_s": sim.now() - 1000.0,
+                      "notes": sim.notes},
+            "sample": {"seed": seed, "regime": regime, "interval": interval}}
+
+
 def _pause_reconnect(seed, tape, w, interval, first_conn, eL, t_conn):
     """The Leader's application throttles its subchannel (pauseProducing)
     around a connection loss and resumes at a drawn moment - before the loss,
@@ -414,7 +426,11 @@ def _pause_reconnect(seed, tape, w, interval, first_conn, eL, t_conn):
         return c is not None and c is not first_conn and w.both_connected()
     sim.run(30000, until=replaced, max_time=cut_at + 6 * interval)
     if not replaced():
-        raise HarnessError("pause_reconnect: no replacement connection")
+        w.finish()
+        return _no_replacement(sim, seed, "pause_reconnect", interval,
+                               "link cut at +%.2f (application had paused its "
+                               "subchannel, resumes %s): no replacement "
+                               "connection within 6 intervals" % (cut_at, when))
     resume()                       # "after_replacement" (or a late gap)
     c2 = L.m._connection
     e2 = w.l2_end[c2]
@@ -524,7 +540,11 @@ def _bulk_reconnect(seed, tape, w, interval, first_conn, eL, t_conn):
         return c is not None and c is not first_conn and w.both_connected()
     sim.run(60000, until=replaced, max_time=cut_at + 4 * interval)
     if not replaced():
-        raise HarnessError("bulk_reconnect: no replacement connection")
+        w.finish()
+        return _no_replacement(sim, seed, "bulk_reconnect", interval,
+                               "link cut at +%.2f under a bulk backlog: no "
+                               "replacement connection within 4 intervals" %
+                               cut_at)
     c2 = L.m._connection
     e2 = w.l2_end[c2]
     t2 = sim.now()
